@@ -7,6 +7,7 @@ import (
 	"fmt"
 	"go/token"
 	"go/types"
+	"strings"
 
 	"golang.org/x/tools/go/ssa"
 )
@@ -86,14 +87,37 @@ func VerifyFunction(p *Prog, fn *ssa.Function, c *Contract) (vc *VC) {
 	if fn.Signature.Recv() != nil && isPointer(fn.Signature.Recv().Type()) && len(f.params) > 0 {
 		vc.assume(Not(Eq(f.params[0].T, IntLit(0))))
 	}
+	var alsos []*Contract
 	if c != nil {
-		for _, r := range c.Requires {
+		for _, r := range append(append([]*Clause{}, c.Requires...), c.CapReq...) {
 			t, ok := vc.trClause(vc.entryScopeF(f), r)
 			if ok {
 				vc.assume(t)
 			}
 		}
 		vc.modTop = vc.evalMods(vc.entryScopeF(f), c)
+		for _, a := range c.Also {
+			key := a
+			if !strings.Contains(key, ".") {
+				key = vc.pkgOf(fn).Name() + "." + key
+			}
+			ft := p.cs.Funcs["functype::"+key]
+			if ft == nil {
+				vc.specErrors = append(vc.specErrors, "also functype "+a+": no such functype contract")
+				continue
+			}
+			alsos = append(alsos, ft)
+			sc := vc.alsoScope(f, ft, nil)
+			for _, r := range ft.Requires {
+				if t, ok := vc.trClause(sc, r); ok {
+					vc.assume(t)
+				}
+			}
+			vc.modTop = append(vc.modTop, vc.evalMods(sc, ft)...)
+			if ft.ModAll {
+				vc.allowAll = true
+			}
+		}
 	}
 	// cover: preconditions are satisfiable
 	vc.addCover(st, "entry")
@@ -140,6 +164,18 @@ func VerifyFunction(p *Prog, fn *ssa.Function, c *Contract) (vc *VC) {
 			if ok {
 				for _, g := range parts {
 					vc.oblige(out, "post", e.Name+g.label, g.t, clauseProps(c, e), "postcondition: "+g.src, fn.Pos())
+				}
+			}
+		}
+		for _, ft := range alsos {
+			asc := vc.alsoScope(f, ft, results)
+			asc.st, asc.old = out, vc.entry
+			for _, e := range ft.Ensures {
+				parts, ok := vc.trGoal(asc, e)
+				if ok {
+					for _, g := range parts {
+						vc.oblige(out, "post", "functype:"+ft.Target+":"+e.Name+g.label, g.t, clauseProps(c, e), "closure meets its function type's contract: "+g.src, fn.Pos())
+					}
 				}
 			}
 		}
@@ -217,4 +253,44 @@ func (f *Frame) specialCall(st *State, in ssa.Instruction, fn *ssa.Function, arg
 		}
 	}
 	return nil
+}
+
+// VerifyLemma turns a `lemma` declaration into a stand-alone obligation.
+func VerifyLemma(p *Prog, ax *AxiomDecl) *VC {
+	vc := NewVC(p, nil, nil)
+	vc.lemmaName = "lemma." + ax.Name
+	vc.missing = map[string]bool{}
+	vc.declConst("top!0", SInt)
+	st := &State{pc: True, locals: map[cellKey]Term{}, heaps: map[string]Term{}, gen: 0, top: Term{"top!0", SInt}}
+	vc.entry = st
+	sc := &Scope{vc: vc, pkg: p.typesPkg(ax.PkgPath), vars: map[string]scopeVar{}, st: st, old: st}
+	t, _, ok := vc.trExpr(sc, ax.E, "lemma "+ax.Name)
+	if ok {
+		vc.oblige(st, "lemma", ax.Name, t, ax.Props, "lemma: "+ax.Src, 0)
+	}
+	return vc
+}
+
+// alsoScope binds the parameter names of a functype contract to the parameters
+// of the function under verification (positionally).
+func (vc *VC) alsoScope(f *Frame, ft *Contract, results []Value) *Scope {
+	sc := &Scope{vc: vc, pkg: vc.p.typesPkg(ft.PkgPath), vars: map[string]scopeVar{}, st: vc.entry, old: vc.entry}
+	names, typs := contractParamNames(ft, vc.fn.Signature, nil)
+	for i, n := range names {
+		if i < len(f.params) && n != "" && n != "_" {
+			sc.vars[n] = scopeVar{f.params[i].T, typs[i]}
+		}
+	}
+	sig := vc.fn.Signature
+	for i := 0; i < sig.Results().Len() && i < len(results); i++ {
+		rv := sig.Results().At(i)
+		if i < len(ft.ResNames) {
+			sc.vars[ft.ResNames[i]] = scopeVar{results[i].T, rv.Type()}
+		}
+		sc.vars[fmt.Sprintf("result%d", i)] = scopeVar{results[i].T, rv.Type()}
+		if i == 0 {
+			sc.vars["result"] = scopeVar{results[i].T, rv.Type()}
+		}
+	}
+	return sc
 }
